@@ -79,14 +79,14 @@ fn eval(ctx: &Ctx, case: &Case) {
             ctx.trace();
             // built here (a thread that has built ciphers before or not, as the driver has it) ...
             let Guard::Done(Ok(c)) = guard(|| gm_sm4::Sm4Cipher::new(&k)) else { return };
-            let c = std::sync::Arc::new(c);
             let want_e = refmodels::sm4::encrypt_block(&k, &b);
             let want_d = refmodels::sm4::decrypt_block(&k, &b);
-            // ... used on two brand-new threads: one gets a clone moved in, the other shares it through an Arc
-            let c_moved = (*c).clone();
-            let r1 = std::thread::spawn(move || guard(|| (c_moved.encrypt(&b), c_moved.decrypt(&b)))).join();
-            let c_shared = c.clone();
-            let r2 = std::thread::spawn(move || guard(|| (c_shared.decrypt(&b), c_shared.encrypt(&b)))).join();
+            // ... used on two brand-new threads: one gets a clone moved in, the other borrows the original
+            // (handed over through spawn / join: the accesses never overlap)
+            let c_moved = crate::engine::Xfer::new(c.clone());
+            let r1 = std::thread::spawn(move || guard(|| (c_moved.get().encrypt(&b), c_moved.get().decrypt(&b)))).join();
+            let c_shared = crate::engine::Xfer::new(&c);
+            let r2 = std::thread::scope(|sc| sc.spawn(move || guard(|| (c_shared.get().decrypt(&b), c_shared.get().encrypt(&b)))).join());
             let ok1 = matches!(&r1, Ok(Guard::Done((Ok(e), Ok(d)))) if e[..] == want_e[..] && d[..] == want_d[..]);
             let ok2 = matches!(&r2, Ok(Guard::Done((Ok(d), Ok(e)))) if e[..] == want_e[..] && d[..] == want_d[..]);
             if ok1 && ok2 {
